@@ -6,7 +6,7 @@ import common
 def run(res):
     work = tempfile.mkdtemp(prefix="bgverif_c08_")
     try:
-        regen = common.regen_tables()
+        regen = common.regen_tables("C08")
         lean = common.lean_obligations("C08", res.tier)
         ok, log = common.cargo_build_harness(["c08"])
         if not ok:
